@@ -132,6 +132,7 @@ UuidsStable(C, a, post, ok) ==
         IN keep => \E n \in post.meta : n.uuid = m.uuid /\ n.node = node /\ n.schema = m.schema /\ n.content = m.content
 
 SelfDescribing(env, C) ==
+    /\ \A r \in CT!UsedSchemas(C) : \E s \in C.schemas : s.ref = r      \* every schema in use is described
     /\ \A s \in C.schemas : RefKey(s.ref) \in DOMAIN env.parents /\ s.parents = ParentsOf(env, s.ref)
     /\ \A r \in CT!UsedSchemas(C) :
           \E p \in C.pkgs : r \in p.provides /\ <<p.name, p.ver>> = <<env.provider[RefKey(r)][1], env.provider[RefKey(r)][2]>>
